@@ -96,7 +96,9 @@ CLAIMED["C08"] = {
             "Master port (slave_only_from_start) and after a run-time switch no port is Master once the next BMCA run completed, nor "
             "later (slave_only_at_runtime); every frame and measurement emitted by any host call is role-guarded "
             "(emitters_guarded: Announce/Sync/Follow_Up/Delay_Resp only from a port that was Master, Delay_Req only from the Slave "
-            "port, sync/delay measurements only on the Slave port; BMCA runs emit no frames). Model tied by the inst stream "
+            "port, sync/delay measurements only on the Slave port; BMCA runs emit no frames); what a port that is not Slave hands its "
+            "servo is a peer delay result and nothing else (non_slave_port_feeds_peer_delay_only), on which an unarmed Kalman servo programs "
+            "no frequency (C13). Model tied by the inst stream "
             "(states, frame types, measurements, demobilisations after every op) plus an independent role oracle on the implementation; "
             "oracle-only stream kports: the real Kalman servo on every port of one- to three-port instances (E2E / P2P), no host call on a "
             "port that is not Slave reaches Clock::set_frequency / step_clock through that port.",
@@ -261,7 +263,10 @@ CLAIMED["C13"] = {
             "Duration, at least the step threshold as the servo compares it (step_at_least_threshold, via monotonicity of the "
             "bit-level f64 -> I96F32 conversion); demobilize gives the clock at most one command, a frequency within the bound, "
             "and a servo that is gone gives none (demobilize_at_most_one_command, nothing_after_demobilize); the fresh filter a port "
-            "installs is silent until its first measurement (fresh_filter_is_silent); a port demobilises exactly when it leaves "
+            "installs is silent until its first measurement (fresh_filter_is_silent) and, like every servo that has not programmed a "
+            "frequency yet, programs none however many peer delay results, update timers and a demobilisation it sees - which is all a "
+            "port that is not Slave hands it (unarmed_servo_never_programs_a_frequency_partial with C08.non_slave_port_feeds_peer_delay_only; "
+            "partial: a step is excluded only by the sampled stream kports); a port demobilises exactly when it leaves "
             "Slave or enters / leaves Faulty (leaving_slave_demobilizes_once). Tie: the model instantiated with the processor's "
             "binary64 operations is compared with the Rust filters after every call, bit for bit, on commands, returned values and "
             "the complete filter state. Three genuine defects found (bound exceeded by one ulp; NaN state from zero-variance "
